@@ -585,6 +585,12 @@ func filestat(h FileLister, r *Request, pkt requestPacket) responsePacket {
 	if err != nil {
 		return statusFromError(pkt.id(), err)
 	}
+	// This lister only serves the one call below: release it as documented
+	// for ListerAt ("will call Close() on ListerAt if an io.Closer type
+	// assertion succeeds").
+	if c, ok := lister.(io.Closer); ok {
+		defer c.Close()
+	}
 	finfo := make([]os.FileInfo, 1)
 	n, err := lister.ListAt(finfo, 0)
 	finfo = finfo[:n] // avoid need for nil tests below
